@@ -17,7 +17,7 @@ from props import c02
 
 IMPORTS = "From TP Require Import Model.Assign Model.Link Model.LinkCheck Model.Adaptive."
 FUNC = ("fun c => match c with (m, mem, fr, out, (amax, p, q, sn, sd)) => "
-        "acheck_run 80 {| a_max := amax; a_p := p; a_q := q; a_sn := sn; a_sd := sd |} m mem fr out end")
+        "acheck_run 700 {| a_max := amax; a_p := p; a_q := q; a_sn := sn; a_sd := sd |} m mem fr out end")
 CODES = dict(c02.CODES)
 CODES[2] = 'a link is not among the candidates allowed by the reduced range of its sub-group (or a source dropped by a split was linked)'
 CODES[3] = 'a sub-group is not solved optimally for its reduced range'
